@@ -4,6 +4,7 @@ CONSTANTS
   Whats = {"ok", "block", "round", "psid", "type", "ts", "forged", "garbage"}
   MaxExtra = 2
   MaxOver = 1
+  MinN = 0
   Ops = {"list", "vector"}
   Ns = {1, 2, 3, 4, 5, 6, 7}
   MaxAnom = 1
